@@ -33,7 +33,16 @@ impl FlightIngestService {
             return Ok(0);
         }
 
-        let batches = flight_data_to_batches(&payload)
+        // The Arrow IPC decoder panics on some malformed headers / buffer layouts
+        // (unknown type parameters, buffer offsets past the body). The payload is
+        // untrusted, so turn that into a decode error instead of unwinding the request task.
+        let decoded = std::panic::catch_unwind(std::panic::AssertUnwindSafe(|| {
+            flight_data_to_batches(&payload)
+        }))
+        .map_err(|_| {
+            crate::Error::InvalidSchema("Flight IPC decode failed: malformed payload".into())
+        })?;
+        let batches = decoded
             .map_err(|e| crate::Error::InvalidSchema(format!("Flight IPC decode failed: {e}")))?;
 
         let mut total_rows = 0u64;
